@@ -259,7 +259,7 @@ fn enforce_case(rng: &mut Rng, ctx: &mut Ctx) {
         max_frame: None,
         seed: rng.u64(),
         server_timeout: server_ms.map(Duration::from_millis),
-        endpoint_timeout: endpoint_ms.map(Duration::from_millis), max_connection_age: None,
+        endpoint_timeout: endpoint_ms.map(Duration::from_millis), max_connection_age: None, opts: 0,
     };
     let case_json = json!({"shape": format!("{:?}", shape), "caller_timeout_ms": header_ms, "server_timeout_ms": server_ms, "endpoint_timeout_ms": endpoint_ms, "handler_latency_ms": latency, "effective_ms": eff, "malformed_caller_header": malformed});
     if malformed.is_some() {
